@@ -146,12 +146,35 @@ def run(pid: str, tier: str, seed: int, replay_file: str | None, only: str | Non
     notes: list[str] = []
     unit_stats: list[dict[str, Any]] = []
     undecided: list[str] = []
+    early_violations: list[str] = []
     t_sym = time.time()
     for u in units:
         ex = Explorer(u.run, max_paths=u.max_paths, label=u.name)
         try:
             results = ex.explore()
         except Unsupported as e:
+            # The code under contract left the supported subset (or a loop lost its invariant): the proof
+            # is undecided.  A labelled *bounded* fallback may still settle it: the unit's native search
+            # hook hunts for a failing input on the real code; a hit is a confirmed violation (never a
+            # false alarm, the input is replayed natively), no hit leaves the unit undecided (exit 2).
+            found = None
+            if u.search is not None:
+                try:
+                    found = u.search(None, seed)
+                except Exception as se:
+                    print(f"  search hook raised {type(se).__name__}: {se}")
+            if found is not None:
+                inputs_f, rr_f = found
+                os.makedirs(os.path.join(VERIF, "replays", pid), exist_ok=True)
+                rp = os.path.join("replays", pid, sanitize(f"{pid}.{u.name}.unsupported-fallback") + ".json")
+                with open(os.path.join(VERIF, rp), "w") as fh:
+                    json.dump({"property": pid, "unit": u.name, "obligation": f"{pid}.{sanitize(u.name)}.bounded-native-search", "inputs": jsonable(inputs_f),
+                               "solver": "none (function left the supported subset: " + str(e)[:200] + ")",
+                               "solver_output": "undecided by the prover; failing input found by the unit's bounded native search",
+                               "native_replay": {"confirmed": True, "detail": rr_f.detail}}, fh, indent=1)
+                early_violations.append(f"VIOLATION property={pid} replay={rp}")
+                print(f"REFUTED (bounded native search after: {str(e)[:120]}) unit={u.name!r}: {rr_f.detail[:300]}")
+                continue
             undecided.append(f"{u.name}: unsupported: {e}")
             print(f"UNDECIDED property={pid} unit={u.name!r}: {e}")
             if verbose:
@@ -214,7 +237,7 @@ def run(pid: str, tier: str, seed: int, replay_file: str | None, only: str | Non
                     bounded_models.setdefault(v2.ob.name, []).append(v2)
         bounded_note = f"bounded mode consulted for {len(bounded_canary_ok) + len(bounded_models)} names in {time.time() - t_b:.1f}s"
 
-    violations: list[str] = []
+    violations: list[str] = list(early_violations)
     known_lines: list[str] = []
     n_oblig = n_disch = n_canary = n_canary_ok = n_cover = n_cover_ok = n_known = 0
     per_ob: list[dict[str, Any]] = []
@@ -311,6 +334,15 @@ def run(pid: str, tier: str, seed: int, replay_file: str | None, only: str | Non
                 rr = u.replay(inputs, ob)
             except Exception as e:
                 rr = api.ReplayResult(False, f"replay harness raised {type(e).__name__}: {e}")
+        if (rr is None or not rr.confirmed) and u.search is not None and model is not None:
+            # the solver's model did not reproduce (or the unit has no model-driven replay): hunt natively
+            try:
+                found = u.search(ob, seed)
+            except Exception as e:
+                found = None
+                print(f"  search hook raised {type(e).__name__}: {e}")
+            if found is not None:
+                inputs, rr = found
         wclass = ""
         if u.classify is not None:
             try:
@@ -411,6 +443,10 @@ def run(pid: str, tier: str, seed: int, replay_file: str | None, only: str | Non
             print(f"BOUNDED-FAILURE {b.name}: {fmsg[:300]}")
             break
 
+    if verbose:
+        for v in sorted(verdicts, key=lambda v: -v.seconds)[:6]:
+            if v.seconds >= 1.0:
+                print(f"  slow: {v.seconds:.1f}s {v.ob.name} path={v.ob.path_id} {v.result} {v.tried} goal={str(v.ob.goal)[:160]}")
     for line in known_lines:
         print(line)
     for line in violations:
@@ -459,6 +495,7 @@ def run(pid: str, tier: str, seed: int, replay_file: str | None, only: str | Non
             "symbolic_execution_seconds": round(sym_s, 2),
             "smt_wall_seconds": round(smt_s, 2),
             "solvers": {"z3": z3.get_version_string(), "cvc5": "1.0.3 (/usr/bin/cvc5, consulted on z3 unknown)"},
+            "cross_solver_check": dict(smt.LAST_STATS),
             "per_obligation": per_ob if len(per_ob) <= 400 else per_ob[:400],
             "repo": os.environ.get("VERIF_REPO", "/repo"),
         },
